@@ -11,7 +11,7 @@ import (
 var flattenStream = (&StreamSpec{
 	Name:   "flatten",
 	Op:     "flatten",
-	N:      25, // bundles; each is run under the 6 option sets (+KeepNames on some single-document bundles)
+	N:      60, // bundles; each is run under the 6 option sets (+KeepNames on some single-document bundles)
 	Stream: 1,
 	Rule:   "bundles of W from the bundle generator (root + 0..3 auxiliary JSON files in nested directories; $refs local / cross-file / aux-to-aux / self- and mutually recursive / arrays and maps of themselves / anonymous pointers to sub-schemas of root definitions and to shared parameter/response schemas where W allows them; parameter and response $refs to shared objects; names over the alphabet; colliding imported $ref-free definitions) x option sets {Minimal, full, Expand} x {RemoveUnused}; per case: Flatten in a child process, 3 repeats + 2 loads with permuted key order, second Flatten on the output, analyzer digest vs fresh analysis, every k-th load failing; Lean validators on (input bundle, output); non-trivial = Flatten returned nil; distinct by canonical JSON",
 	Gen:    nil,
@@ -36,6 +36,30 @@ var flattenStream = (&StreamSpec{
 				for i := range fs {
 					if fs[i].Kind == "property" && !strings.Contains(fs[i].Signature, ":hang:") && !strings.Contains(fs[i].Signature, ":crash:") && !strings.Contains(fs[i].Signature, ":panic:") {
 						fs[i].Signature = "flatten:keepNames-created-names"
+					}
+				}
+			}
+		}
+		// known cause (finding D16): an anonymous pointer to the schema of a shared parameter / response is sometimes left
+		// in place by Minimal/full flattening (seen only with several such pointers, one of them held inside a shared section)
+		if nc, _ := get(out, "nonCanonical").([]any); len(nc) > 0 {
+			all := true
+			for _, e := range nc {
+				pair, _ := e.([]any)
+				tgt := ""
+				if len(pair) == 2 {
+					tgt, _ = pair[1].(string)
+				}
+				if !(strings.HasPrefix(tgt, "#/parameters/") || strings.HasPrefix(tgt, "#/responses/")) {
+					all = false
+				}
+			}
+			if all {
+				for i := range fs {
+					for _, cl := range []string{":non-canonical-ref:", ":not-idempotent:", ":second-error:", ":dangling-ref:"} {
+						if strings.Contains(fs[i].Signature, cl) {
+							fs[i].Signature = "flatten:pointer-to-shared-schema-left-in-place"
+						}
 					}
 				}
 			}
@@ -65,7 +89,7 @@ func init() {
 	flattenStream.Gen = func(g *Gen, i int) (any, string) {
 		o := optionSets[i%len(optionSets)]
 		gb := NewGen(g.seed, 1<<40|uint64(i/len(optionSets)))
-		in := flattenCase(gb, o, false, 3, 2, true)
+		in := flattenCase(gb, o, false, 3, 2, true, i/len(optionSets))
 		mergeFeat(g.feat, gb.feat)
 		g.hit("opts:" + o.String())
 		return in, o.String()
@@ -210,7 +234,7 @@ func init() {
 	flattenPlusStream.Gen = func(g *Gen, i int) (any, string) {
 		o := optionSets[i%len(optionSets)]
 		gb := NewGen(g.seed, 2<<40|uint64(i/len(optionSets)))
-		in := flattenCase(gb, o, true, 0, 0, true)
+		in := flattenCase(gb, o, true, 0, 0, true, i/len(optionSets))
 		mergeFeat(g.feat, gb.feat)
 		return in, o.String()
 	}
